@@ -30,6 +30,17 @@ Families (alphabets):
          xcm_server / xcm_connect is called; accepted sockets take the server's.  Connections are only attempted
          within one namespace and one process (loopback TCP does not cross namespaces).  Skipped with an INFO line
          when unshare/mount/setns are not permitted.
+  netcrl the netns fixture with tls.check_crl=true and EVERY file left to the default naming (cert/key/tc/crl
+         <item>_<ns>.pem): crl.pem = root2's CRL, crl_nsA.pem revokes peer `rev`, crl_nsB.pem revokes nobody.
+         SN0 SNA SNB, SWC (crl_nsA.pem and crl_nsB.pem swap contents, rename-over), S:defcrl, C:rev/inh (the revoked
+         peer, by value), C:val/inh (a good peer), C:defcrl/inh, X, XS.  Oracle: exactly the CRL file of the
+         namespace governs: the good peer connects, the revoked one is refused where - and only where - the
+         namespace's file holds the revoking bundle at call time.
+  bad:<file|value>:chain-<shape>:cert   the certificate item is leaf + 1..2 extra PEM blocks, shape letters: G well-formed
+         certificate, T DER cut short (armour and base64 intact), F first DER octet flipped, E empty body, W foreign
+         label.  Reference parse per block (generic PEM reader + d2i_X509): a block under a certificate label that
+         does not decode, or broken armour/base64, anywhere => EPROTO and nothing cached; foreign labels are passed
+         over (RFC 7468; the key+certificate-in-one-file layout depends on it); all-G/W shapes are valid material.
   split  by-value configurations whose item boundaries differ but whose concatenation is equal
          (s1: cert=leaf+intermediate,key=key  s2: cert=leaf,key=intermediate+key;
           s3: key=key+root2,tc=root  s4: key=key,tc=root2+root), s5 = s4 with tc=root only (differs in ONE item),
@@ -89,17 +100,28 @@ def bad_families():
     return f
 
 
+CHAIN_BLOCKS = "GTFEW"
+
+
+def chain_families():
+    """leaf + 1..2 extra PEM blocks, every block kind at every position, designated by file and by value"""
+    shapes = [a for a in CHAIN_BLOCKS] + [a + b for a in CHAIN_BLOCKS for b in CHAIN_BLOCKS]
+    return ["bad:%s:chain-%s:cert" % (form, sh) for form in ("file", "value") for sh in shapes]
+
+
 def plan(tier):
     """Stages, run one after the other; the runs of one stage share the cores.  (family, depth, build).
     The deepest levels come last so that a tier deadline cuts those."""
     bad = bad_families()
     if tier == "quick":
-        return [[("main", 3, "plain")], [("kube", 3, "plain")], [("netns", 4, "plain")], [("split", 3, "plain")],
-                [("files", 4, "plain")],
+        # cheap stages first: a deadline on a loaded machine then cuts the bulk, not the breadth
+        return [[("main", 3, "plain")], [("netcrl", 3, "plain")], [(f, 2, "plain") for f in chain_families()],
+                [("kube", 3, "plain")], [("netns", 4, "plain")], [("split", 3, "plain")], [("files", 4, "plain")],
                 [("main", 2, "asan"), ("split", 2, "asan"), ("kube", 2, "asan"), ("netns", 2, "asan")],
                 [(f, 3, "plain") for f in bad]]
     # main contains the alphabets of files and attrs, so main d covers them to depth d
-    return [[("main", 4, "plain")], [("kube", 4, "plain")], [("netns", 5, "plain")], [("split", 4, "plain")],
+    return [[("main", 4, "plain")], [("kube", 4, "plain")], [("netns", 5, "plain")], [("netcrl", 5, "plain")],
+            [("split", 4, "plain")], [(f, 3, "plain") for f in chain_families()],
             [(f, 4, "plain") for f in bad],
             [("main", 3, "asan"), ("split", 3, "asan"), ("kube", 3, "asan"), ("netns", 3, "asan")],
             [(f, 2, "asan") for f in bad],
@@ -133,6 +155,12 @@ def prepare_material(dst):
             open(os.path.join(dst, "I", "leaf.pem"), "w").write(parts[0])
             open(os.path.join(dst, "I", "inter.pem"), "w").write(parts[1])
             shutil.copyfile(os.path.join(pki, "peer_via_inter", "key.pem"), os.path.join(dst, "I", "key.pem"))
+            os.makedirs(os.path.join(dst, "R"))
+            for f in ("cert.pem", "key.pem"):
+                shutil.copyfile(os.path.join(pki, "peer_revoked", f), os.path.join(dst, "R", f))
+            shutil.copyfile(os.path.join(pki, "crl_revoking.pem"), os.path.join(dst, "crl_rev.pem"))
+            shutil.copyfile(os.path.join(pki, "crl_empty.pem"), os.path.join(dst, "crl_empty.pem"))
+            shutil.copyfile(os.path.join(pki, "other_domain", "crl.pem"), os.path.join(dst, "crl_r2.pem"))
             shutil.copyfile(os.path.join(pki, "root.pem"), os.path.join(dst, "root.pem"))
             shutil.copyfile(os.path.join(pki, "root2.pem"), os.path.join(dst, "root2.pem"))
 
@@ -147,7 +175,7 @@ def prepare_material(dst):
                                                    serialization.PublicFormat.SubjectPublicKeyInfo)
             root, _ = pub(os.path.join(dst, "root.pem"))
             for d, cert, key in (("A", "cert.pem", "key.pem"), ("B", "cert.pem", "key.pem"), ("C", "cert.pem", "key.pem"),
-                                 ("I", "leaf.pem", "key.pem")):
+                                 ("I", "leaf.pem", "key.pem"), ("R", "cert.pem", "key.pem")):
                 p, _c = pub(os.path.join(dst, d, cert))
                 if p != keypub(os.path.join(dst, d, key)):
                     raise ValueError("set %s: key does not match certificate (PKI regenerated meanwhile?)" % d)
@@ -283,8 +311,10 @@ def run(chk, tier, jobs, deadline):
     for pf in per_family:
         if "depth_completed" in pf:
             fam = pf["family"].split(":")[0] if pf["family"].startswith("bad:") else pf["family"]
+            if fam == "bad" and ":chain-" in pf["family"]:
+                fam = "bad-chain"
             key = "%s/%s" % (fam, pf["build"])
-            if fam == "bad":
+            if fam.startswith("bad"):
                 # the bad family is complete to depth d only if every parameter reached d
                 depths.setdefault(key, {}).setdefault(pf["depth_requested"], []).append(pf["depth_completed"])
             else:
@@ -293,7 +323,8 @@ def run(chk, tier, jobs, deadline):
         if isinstance(v, dict):
             best = 0
             for req, got in v.items():
-                if len(got) == len(bad_families()) and min(got) >= req:
+                want = len(chain_families()) if key.startswith("bad-chain") else len(bad_families())
+                if len(got) == want and min(got) >= req:
                     best = max(best, req)
             depths[key] = best
     # one evidence row per (depth, build) for the 29 bad:* parameterisations
@@ -301,7 +332,7 @@ def run(chk, tier, jobs, deadline):
     for pf in per_family:
         if pf["family"].startswith("bad:") and "depth_completed" in pf:
             a = agg.setdefault((pf["depth_requested"], pf["build"]),
-                               dict(family="bad:* (%d parameterisations)" % len(bad_families()), build=pf["build"],
+                               dict(family="bad:* (failure kinds and chain shapes)", build=pf["build"],
                                     depth_requested=pf["depth_requested"], depth_completed=99, parameterisations=0,
                                     histories=0, steps=0, connections_established=0, abandoned=0, wall_s=0.0, cpu_s=0.0))
             a["depth_completed"] = min(a["depth_completed"], pf["depth_completed"])
